@@ -233,6 +233,11 @@ pub fn corpus(syn: &str) -> Vec<String> {
         "[{\"@id\":\"http://example.org/g\",\"@graph\":[{\"@id\":\"_:b0\",\"http://example.org/p\":[{\"@value\":\"chat\",\"@language\":\"fr-FR\"},{\"@value\":\"1\",\"@type\":\"http://example.org/dt\"},{\"@list\":[{\"@id\":\"http://[::1]/a\"},{\"@list\":[]}]},{\"@id\":\"../rel\"}],\"@reverse\":{\"http://example.org/r\":{\"@id\":\"http://example.org/x\"}}}]},{\"@id\":\"http://example.org/s\",\"http://example.org/q\":{\"@value\":1.5e300},\"@index\":\"i\"}]".to_string(),
         "{\"@context\":{\"@vocab\":\"http://example.org/v#\",\"@base\":\"http://example.org/base/\",\"@language\":\"de\"},\"@id\":\"rel/./../s\",\"p\":\"Wert\",\"q\":{\"@value\":\"x\",\"@language\":\"EN\"},\"r\":{\"@id\":\"#f\"},\"é\":[0,-0.0,1e21,9007199254740993]}".to_string(),
     ];
+    let mut jsonld = jsonld;
+    // base direction (only visible under rdf_direction options), generalized RDF (blank node predicate / graph),
+    // protected and scoped contexts, @nest, @json, @included, @index/@id/@type maps
+    jsonld.push("{\"@context\":{\"@version\":1.1,\"@direction\":\"rtl\",\"ex\":\"http://example.org/\",\"t\":{\"@id\":\"ex:t\",\"@language\":\"ar-EG\",\"@direction\":\"rtl\"},\"n\":{\"@id\":\"ex:n\",\"@direction\":null}},\"@id\":\"ex:s\",\"t\":\"abc\",\"n\":\"plain\",\"ex:d\":[{\"@value\":\"x\",\"@direction\":\"ltr\"},{\"@value\":\"y\",\"@language\":\"he\",\"@direction\":\"rtl\"},{\"@value\":\"z\",\"@language\":\"en-US\"}]}".to_string());
+    jsonld.push("{\"@context\":{\"@version\":1.1,\"ex\":\"http://example.org/\",\"bp\":\"_:pred\",\"j\":{\"@id\":\"ex:j\",\"@type\":\"@json\"},\"byLang\":{\"@id\":\"ex:l\",\"@container\":\"@language\"},\"byId\":{\"@id\":\"ex:i\",\"@container\":\"@id\"},\"nest\":\"@nest\",\"T\":{\"@id\":\"ex:T\",\"@context\":{\"in\":\"ex:in\"}}},\"@id\":\"_:g\",\"@graph\":[{\"@id\":\"ex:s\",\"@type\":\"T\",\"in\":\"scoped\",\"bp\":\"o\",\"_:q\":{\"@id\":\"_:o\"},\"j\":{\"a\":[1,{\"b\":null}]},\"byLang\":{\"en\":\"x\",\"fr-CA\":[\"y\"],\"@none\":\"z\"},\"byId\":{\"ex:k\":{\"ex:p\":1}},\"nest\":{\"ex:m\":\"nested\"},\"@included\":[{\"@id\":\"ex:inc\",\"ex:p\":{\"@set\":[true]}}]}]}".to_string());
     match syn {
         "nt" => nt,
         "nq" => nq,
@@ -265,6 +270,116 @@ fn emit_doc(ctx: &mut GenCtx, syn: &str, d: &[u8], base: Option<&str>, what: &st
     match base {
         Some(b) => ctx.emit(&format!("doc {} {} {}", syn, hex_bytes(d), hex(b))),
         None => ctx.emit(&format!("doc {} {}", syn, hex_bytes(d))),
+    }
+}
+
+/// the JSON-LD seed corpus (and structural variants of it) under every non-default parser option
+fn jsonld_options(ctx: &mut GenCtx) {
+    let docs = corpus("jsonld");
+    for syn in run::JSONLD_VARIANTS {
+        for (di, doc) in docs.iter().enumerate() {
+            let d = doc.as_bytes();
+            match catch(std::panic::AssertUnwindSafe(|| run::run(syn, d, None, false))) {
+                Ok(o) if o.errors == 0 && o.items > 0 => ctx.stats.bump("opt.seed.valid"),
+                Ok(o) if o.errors > 0 => ctx.stats.bump(&format!("opt.seed.rejected.{}.{}", syn, di)),
+                _ => ctx.stats.bump(&format!("opt.seed.other.{}.{}", syn, di)),
+            }
+            emit_doc(ctx, syn, d, None, "seed");
+            let n = d.len();
+            let k = if ctx.thorough { n } else { 120 };
+            for _ in 0..k {
+                let i = ctx.rng.below(n);
+                let mut m = d.to_vec();
+                match ctx.rng.below(4) {
+                    0 => {
+                        m.remove(i);
+                        emit_doc(ctx, syn, &m, None, "delete");
+                    }
+                    1 => {
+                        let ins: &[u8] = *ctx.rng.pick(INS);
+                        let mut m = d[..i].to_vec();
+                        m.extend_from_slice(ins);
+                        m.extend_from_slice(&d[i..]);
+                        emit_doc(ctx, syn, &m, None, "insert");
+                    }
+                    2 => {
+                        m[i] ^= 1 << ctx.rng.below(8);
+                        emit_doc(ctx, syn, &m, None, "flip");
+                    }
+                    _ => emit_doc(ctx, syn, &d[..i], None, "truncate"),
+                }
+            }
+        }
+    }
+}
+
+/// bases and references of every RFC 3986 5.4 shape, plus the unusual ones the property names
+const REL_BASES: &[&str] = &[
+    "http://example.org/a/b/c?q#f", "http://example.org", "http://example.org/", "http://[::1]:80/x/", "http://u:p@h:/", "http://h?q",
+    "http://h#f", "x:", "x:a", "x:a/b", "x:/", "x://", "x:///a", "urn:a:b", "mailto:a@b", "file:///a/b", "http://h/a//b/", "http://h/a/./b/../c",
+    "http://h/%2E%2E/a", "http://é.org/é/", "http://[v1.a]/", "http://h/a;p/b", "x:a?b/c", "x:?q", "x:#f", "tag:a,2000:b/c",
+    // not IRIs: a configured base cannot be one of these (skip), a directive must reject them
+    "", "rel/", "//h/p", "http://a b/", "http://h/%zz", "http://[::1/", "x:\u{FFFE}", "1x:a",
+];
+const REL_REFS: &[&str] = &[
+    "", "a", "./a", "../a", "../../a", "../../../a/./b/..", "/a", "//h2/p", "?q2", "#f2", "a/b?c#d", "g:h", "g:", ".", "..", "./", "../", "a/./b/../c",
+    "a//b", "/./a", "/../a", "a/..", "a/.", "..a", "a..", ".a", "a:b", "./a:b", "%41", "%4", "%zz", "a b", "a<b", "\u{E000}", "?\u{E000}", "#\u{E000}",
+    "é", "\u{FFFE}", "//[::1]", "//[::1", "//[v1.a]:8", "//h:8x", "//u@h", "//@", "//", "///", "////a", ":a", "1:a", "http:a", "http:/a", "http://",
+    "http://h/../..", "x:../a", "a#b#c", "a?b?c", "a#?", "[", "]", "//h/[", "a/[", "?[", "#[", "\\", "^", "`", "{", "|", "}", "\"", "a\nb", "a\tb",
+];
+
+fn emit_rel(ctx: &mut GenCtx, syn: &str, how: &str, kind: &str, base: &str, r: &str) {
+    if (syn == "xml" || run::family(syn) == "jsonld") && (base.contains('\u{0}') || r.contains('\u{0}')) {
+        return;
+    }
+    ctx.stats.bump(&format!("rel.{}.{}.{}", syn, how, kind));
+    ctx.emit(&format!("rel {} {} {} {} {}", syn, how, kind, hex(base), hex(r)));
+}
+
+const REL_TARGETS: &[(&str, &str, &str)] = &[
+    ("ttl", "cfg", "iri"), ("ttl", "doc", "iri"), ("ttl", "sparql", "iri_o"), ("ttl", "doc", "dt"), ("ttl", "cfg", "prefix"), ("ttl", "twice", "iri"),
+    ("trig", "cfg", "iri_g"), ("trig", "doc", "iri"), ("trig", "sparql", "dt"), ("trig", "doc", "prefix"), ("trig", "twice", "iri_g"),
+    ("gtrig", "cfg", "iri"), ("gtrig", "doc", "iri_g"), ("gtrig", "sparql", "prefix"), ("gtrig", "cfg", "dt"), ("gtrig", "twice", "iri"),
+    ("xml", "cfg", "about"), ("xml", "doc", "about"), ("xml", "cfg", "resource"), ("xml", "doc", "resource"), ("xml", "doc", "datatype"),
+    ("xml", "cfg", "datatype"), ("xml", "doc", "id"), ("xml", "cfg", "id"), ("xml", "doc", "id_p"), ("xml", "doc", "inner"), ("xml", "cfg", "inner"),
+    ("jsonld", "doc", "iri"), ("jsonld", "doc", "iri_o"), ("jsonld", "doc", "type"), ("jsonld", "doc", "graph"), ("jsonld", "doc", "inner"),
+    ("jsonld@base", "doc", "iri"), ("jsonld@base", "doc", "inner"),
+];
+
+fn rel_cases(ctx: &mut GenCtx) {
+    // every base x every reference, the targets rotating; then sampled bases / references from the validator grammars
+    let mut k = 0usize;
+    for b in REL_BASES {
+        for r in REL_REFS {
+            k += 1;
+            let (syn, how, kind) = REL_TARGETS[k % REL_TARGETS.len()];
+            emit_rel(ctx, syn, how, kind, b, r);
+            if ctx.thorough || ctx.rng.chance(1, 3) {
+                let (syn, how, kind) = *ctx.rng.pick(REL_TARGETS);
+                emit_rel(ctx, syn, how, kind, b, r);
+            }
+        }
+    }
+    let abs = rxgen::parse(sophia_iri::IRI_REGEX_SRC);
+    let rel = rxgen::parse(sophia_iri::IRELATIVE_REF_REGEX_SRC);
+    let alpha: Vec<char> = IRI_PUNCT.to_vec();
+    for i in 0..(if ctx.thorough { 6000 } else { 900 }) {
+        let mut b = String::new();
+        rxgen::sample(&abs, &mut ctx.rng, &mut b, 3);
+        let mut r = String::new();
+        rxgen::sample(if i % 5 == 0 { &abs } else { &rel }, &mut ctx.rng, &mut r, 3);
+        if i % 3 == 0 {
+            r = rxgen::mutate(&r, &mut ctx.rng, &alpha);
+        }
+        if i % 7 == 0 {
+            b = rxgen::mutate(&b, &mut ctx.rng, &alpha);
+        }
+        if i % 4 == 0 {
+            // dot segments climbing above the base path
+            r = format!("{}{}", "../".repeat(ctx.rng.range(1, 5)), r);
+        }
+        let (syn, how, kind) = REL_TARGETS[ctx.rng.below(REL_TARGETS.len())];
+        emit_rel(ctx, syn, how, kind, &b, &r);
     }
 }
 
@@ -301,8 +416,9 @@ fn mutate_docs(ctx: &mut GenCtx) {
                     let mut m = d[..i].to_vec();
                     m.extend_from_slice(ins);
                     m.extend_from_slice(&d[i..]);
-                    let with_base = ctx.rng.chance(1, 8);
-                    emit_doc(ctx, syn, &m, if with_base { Some("http://example.org/dir/file") } else { None }, "insert");
+                    let with_base = ctx.rng.chance(1, 4);
+                    let bs = *ctx.rng.pick(&["http://example.org/dir/file", "x:", "http://[::1]:/a/../b?q#f", "urn:a:b"][..]);
+                    emit_doc(ctx, syn, &m, if with_base { Some(bs) } else { None }, if with_base { "insert_base" } else { "insert" });
                     // byte flip (one bit) or replacement by an arbitrary byte
                     let mut m = d.to_vec();
                     if ctx.rng.chance(1, 2) {
@@ -460,8 +576,37 @@ fn emit_tok(ctx: &mut GenCtx, syn: &str, kind: &str, w: &str) {
 
 const FAM: &[&str] = &["nt", "nq", "ttl", "trig", "gnq", "gtrig"];
 
-fn tokens(ctx: &mut GenCtx) {
+/// One PRNG per request family, all seeded up-front from the run's PRNG: the token families sample
+/// from the regex SOURCES of the working tree, so an edit of one regex changes how many numbers that
+/// family draws; with a private stream per family the other families (in particular the document
+/// mutants, whose known-finding predicates are textual) stay exactly the same requests.
+pub struct Forks(Vec<u64>);
+impl Forks {
+    pub fn new(ctx: &mut GenCtx) -> Self {
+        Forks((0..16).map(|_| ctx.rng.next()).collect())
+    }
+    pub fn enter(&self, ctx: &mut GenCtx, family: usize) {
+        ctx.rng = Rng::new(self.0[family] | 1);
+    }
+}
+
+/// positions beyond subject / object that share a recogniser with them
+fn bnode_kinds(syn: &str) -> &'static [&'static str] {
+    match syn {
+        "nt" | "ttl" => &["bnode_q", "bnode_qo"],
+        _ => &["bnode_g", "bnode_q", "bnode_qo"],
+    }
+}
+fn iri_kinds(syn: &str) -> &'static [&'static str] {
+    match syn {
+        "nt" | "ttl" => &["iri_p", "iri_o", "iri_q", "iri_qo", "dt_q"],
+        _ => &["iri_p", "iri_o", "iri_g", "iri_q", "iri_qo", "dt_q"],
+    }
+}
+
+fn tokens(ctx: &mut GenCtx, forks: &Forks) {
     let scale = if ctx.thorough { 10 } else { 1 };
+    forks.enter(ctx, 0);
     let mut k = 0usize; // rotates the syntaxes
     let mut next_fam = |k: &mut usize| -> &'static str {
         *k += 1;
@@ -486,9 +631,20 @@ fn tokens(ctx: &mut GenCtx) {
         for syn in FAM {
             emit_tok(ctx, syn, "bnode", w);
             emit_tok(ctx, syn, "bnode_o", w);
+            for k2 in bnode_kinds(syn) {
+                emit_tok(ctx, syn, k2, w);
+            }
         }
         emit_tok(ctx, "xml", "nodeid", w);
+        emit_tok(ctx, "xml", "nodeid_o", w);
         emit_tok(ctx, "jsonld", "bnode", w);
+        emit_tok(ctx, "jsonld@gen", "bnode", w);
+        emit_tok(ctx, "jsonld@gen", "bnode_p", w);
+        emit_tok(ctx, "jsonld", "bnode_p", w);
+    }
+    for w in [":", "a:b", "a:", ":a", "::", "a:b:c", "0:", "é:é", "a-:", "a\u{B7}:", "a.b", "a.", "-a", "a:.", "a:-"] {
+        emit_tok(ctx, "jsonld@gen", "bnode_p", w);
+        emit_tok(ctx, "jsonld@gen", "bnode", w);
     }
     for i in 0..600 * scale {
         let mut s = String::new();
@@ -500,9 +656,16 @@ fn tokens(ctx: &mut GenCtx) {
         for c in cands.iter() {
             let syn = next_fam(&mut k);
             emit_tok(ctx, syn, if i % 4 == 0 { "bnode_o" } else { "bnode" }, c);
-            emit_tok(ctx, "xml", "nodeid", c);
+            if i % 2 == 1 {
+                let ks = bnode_kinds(syn);
+                emit_tok(ctx, syn, ks[(i / 2) % ks.len()], c);
+            }
+            emit_tok(ctx, "xml", if i % 5 == 0 { "nodeid_o" } else { "nodeid" }, c);
             if i % 4 == 0 {
                 emit_tok(ctx, "jsonld", "bnode", c);
+            }
+            if i % 4 == 1 {
+                emit_tok(ctx, "jsonld@gen", "bnode_p", c);
             }
         }
     }
@@ -521,14 +684,18 @@ fn tokens(ctx: &mut GenCtx) {
     }
 
     // ---- variables
+    forks.enter(ctx, 1);
     let vsrc = regex_src_of("/repo/api/src/term/var_name.rs");
     if vsrc.is_none() {
         ctx.stats.bump("MISSING.var_regex_source");
     }
     let vh = vsrc.as_deref().map(rxgen::parse);
     for w in ["a", "0", "_", "a.b", "a-b", "a\u{B7}", "a\u{300}", "a\u{203F}", "é", "\u{B7}", "", "a:b", "a b", "x\u{FFFD}", "\u{EFFFF}"] {
-        emit_tok(ctx, "gnq", "var", w);
-        emit_tok(ctx, "gtrig", "var", w);
+        for syn in ["gnq", "gtrig"] {
+            for k2 in ["var", "var_p", "var_o", "var_g", "var_q"] {
+                emit_tok(ctx, syn, k2, w);
+            }
+        }
     }
     for i in 0..300 * scale {
         let mut s = String::new();
@@ -539,10 +706,14 @@ fn tokens(ctx: &mut GenCtx) {
         let m = rxgen::mutate(&s, &mut ctx.rng, &balpha);
         for c in [s, m] {
             emit_tok(ctx, if i % 2 == 0 { "gnq" } else { "gtrig" }, "var", &c);
+            if i % 3 == 0 {
+                emit_tok(ctx, if i % 2 == 0 { "gtrig" } else { "gnq" }, ["var_p", "var_o", "var_g", "var_q"][(i / 3) % 4], &c);
+            }
         }
     }
 
     // ---- language tags
+    forks.enter(ctx, 2);
     let lsrc = regex_src_of("/repo/api/src/term/language_tag.rs");
     if lsrc.is_none() {
         ctx.stats.bump("MISSING.lang_regex_source");
@@ -556,7 +727,13 @@ fn tokens(ctx: &mut GenCtx) {
             emit_tok(ctx, syn, "lang", w);
         }
         emit_tok(ctx, "xml", "lang", w);
+        emit_tok(ctx, "xml", "lang_p", w);
         emit_tok(ctx, "jsonld", "lang", w);
+        emit_tok(ctx, "jsonld", "ctx_lang", w);
+        for syn in ["jsonld", "jsonld@i18n", "jsonld@compound"] {
+            emit_tok(ctx, syn, "dir_lang", w);
+        }
+        emit_tok(ctx, FAM[w.len() % FAM.len()], "lang_q", w);
     }
     for i in 0..700 * scale {
         let mut s = String::new();
@@ -568,14 +745,21 @@ fn tokens(ctx: &mut GenCtx) {
         for c in [s, m] {
             let syn = next_fam(&mut k);
             emit_tok(ctx, syn, "lang", &c);
-            emit_tok(ctx, "xml", "lang", &c);
+            emit_tok(ctx, "xml", if i % 4 == 1 { "lang_p" } else { "lang" }, &c);
             if i % 3 == 0 {
                 emit_tok(ctx, "jsonld", "lang", &c);
+            }
+            if i % 3 == 1 {
+                emit_tok(ctx, ["jsonld@i18n", "jsonld@compound", "jsonld", "jsonld@v10"][(i / 3) % 4], if i % 2 == 0 { "dir_lang" } else { "ctx_lang" }, &c);
+            }
+            if i % 5 == 2 {
+                emit_tok(ctx, syn, "lang_q", &c);
             }
         }
     }
 
     // ---- IRIs
+    forks.enter(ctx, 3);
     let abs = rxgen::parse(sophia_iri::IRI_REGEX_SRC);
     let rel = rxgen::parse(sophia_iri::IRELATIVE_REF_REGEX_SRC);
     let mut ialpha: Vec<char> = IRI_PUNCT.to_vec();
@@ -598,8 +782,23 @@ fn tokens(ctx: &mut GenCtx) {
         ("nt", "iri"), ("nq", "iri"), ("ttl", "iri"), ("trig", "iri"), ("gnq", "iri"), ("gtrig", "iri"), ("xml", "iri"), ("jsonld", "iri"),
         ("nt", "dt"), ("gnq", "dt"), ("ttl", "dt"), ("gtrig", "dt"), ("xml", "xmlns"), ("gtrig", "pname_dt"),
     ];
+    // the same recognisers reached through other positions / attributes / keywords, and other parser options
+    let mut more_targets: Vec<(&str, &str)> = vec![
+        ("xml", "resource"), ("xml", "datatype"), ("xml", "type"), ("nq", "dt"), ("trig", "dt"),
+        ("jsonld", "iri_o"), ("jsonld", "type"), ("jsonld", "dtype"), ("jsonld", "graph"), ("jsonld", "vocab"), ("jsonld", "term"),
+        ("jsonld@gen", "iri"), ("jsonld@ordered", "type"), ("jsonld@base", "iri"), ("jsonld@ctx", "iri_o"), ("jsonld@v10", "iri"),
+        ("jsonld@strict", "iri"), ("jsonld@relaxed", "iri"), ("jsonld@i18n", "dtype"), ("jsonld@compound", "graph"),
+    ];
+    for syn in FAM {
+        for k2 in iri_kinds(syn) {
+            more_targets.push((*syn, *k2));
+        }
+    }
     for w in iri_corpus {
         for (syn, kind) in iri_targets {
+            emit_tok(ctx, syn, kind, w);
+        }
+        for (syn, kind) in more_targets.iter() {
             emit_tok(ctx, syn, kind, w);
         }
         ctx.stats.bump("base");
@@ -619,6 +818,8 @@ fn tokens(ctx: &mut GenCtx) {
             emit_tok(ctx, syn, kind, &c);
             let (syn, kind) = iri_targets[ctx.rng.below(6)];
             emit_tok(ctx, syn, kind, &c);
+            let (syn, kind) = more_targets[ctx.rng.below(more_targets.len())];
+            emit_tok(ctx, syn, kind, &c);
         }
         if i % 2 == 0 {
             ctx.stats.bump("base");
@@ -627,17 +828,25 @@ fn tokens(ctx: &mut GenCtx) {
     }
 
     // ---- prefixed names (local part as emitted)
+    forks.enter(ctx, 4);
     let palpha: Vec<char> = "_~.-!$&'()*+,;=/?#@%:aZ09".chars().chain(['é', '\u{B7}', '\u{300}', '\u{FFFD}', '\u{FFFE}', '\u{10000}', '\u{1FFFE}', '\u{E0000}', '\u{EFFFF}', ' ', '<', '"']).collect();
     for w in ["", "a", "a.b", "a.", "a..b", ".a", "-a", "%", "%41", "%4", "%4g", "##", "#a", "a#b#c", "//@@", "/", "//", "//a", "?a?b", "a:b", ":", "::", "0", "é",
         "\u{B7}", "a\u{B7}", "\u{FFFD}", "a\u{FFFE}", "\u{1FFFE}", "\u{E0000}", "a b", "a~b", "!$&'()*+,;=", "@", "a@b", "_", "a%", "a%41%42"] {
         for syn in ["ttl", "trig", "gtrig"] {
             emit_tok(ctx, syn, "pname", w);
+            emit_tok(ctx, syn, ["pname_p", "pname_o", "pname_d", "pname_q"][w.len() % 4], w);
         }
+        emit_tok(ctx, if w.len() % 2 == 0 { "trig" } else { "gtrig" }, "pname_g", w);
     }
     for i in 0..500 * scale {
         let n = ctx.rng.range(1, 6);
         let s: String = (0..n).map(|_| if ctx.rng.chance(1, 2) { 'a' } else { *ctx.rng.pick(&palpha) }).collect();
         emit_tok(ctx, ["ttl", "trig", "gtrig"][i % 3], "pname", &s);
+        if i % 2 == 0 {
+            let syn = ["trig", "gtrig", "ttl"][i % 3];
+            let kinds: &[&str] = if syn == "ttl" { &["pname_p", "pname_o", "pname_d", "pname_q"] } else { &["pname_p", "pname_o", "pname_d", "pname_q", "pname_g"] };
+            emit_tok(ctx, syn, kinds[(i / 2) % kinds.len()], &s);
+        }
     }
 }
 
@@ -690,8 +899,16 @@ fn glue_cases(ctx: &mut GenCtx) {
 }
 
 pub fn generate(ctx: &mut GenCtx) {
-    tokens(ctx);
+    let forks = Forks::new(ctx);
+    tokens(ctx, &forks);
+    forks.enter(ctx, 5);
+    rel_cases(ctx);
+    forks.enter(ctx, 6);
     glue_cases(ctx);
+    forks.enter(ctx, 7);
     deep_and_long(ctx);
+    forks.enter(ctx, 8);
+    jsonld_options(ctx);
+    forks.enter(ctx, 9);
     mutate_docs(ctx);
 }
